@@ -225,6 +225,66 @@ theorem C14_register_accept (tbl : Table) (p : Pattern) (hk : p.kind ≠ .top) (
   · rcases p with ⟨pk, pt, pn⟩
     cases pk <;> simp_all [lookup, shapes, firstHit]
 
+/-! ### histories: a lookup is a function of the registrations made so far -/
+
+/-- a lookup depends only on *which* patterns are registered: not on the order of
+registration, not on duplicates in the list representation -/
+theorem C14_lookup_set (t1 t2 : Table) (h : ∀ p, p ∈ t1 ↔ p ∈ t2) (k : Kind) (typ : String) (n : Name) :
+    lookup t1 k typ n = lookup t2 k typ n := by
+  unfold lookup
+  have : (fun s => decide ((⟨k, typ, s⟩ : Pattern) ∈ t1)) = (fun s => decide ((⟨k, typ, s⟩ : Pattern) ∈ t2)) := by
+    funext s; simp [h]
+  rw [this]
+
+/-- **history independence**: on one multiplexer, the answer to the i-th operation of any
+history (registrations, lookups in any of the four tables, top-level dispatches, in any
+interleaving) is the answer a fresh multiplexer holding exactly the registrations made before
+it would give — earlier lookups and dispatches leave no trace -/
+theorem C14_history (ns : String) : ∀ (ops : List HOp) (tbl : Table) (i : Nat) (op : HOp),
+    ops[i]? = some op →
+    (runHist ns tbl ops)[i]? = some (histRes ns (tableAfter tbl (ops.take i)) op) := by
+  intro ops
+  induction ops with
+  | nil => intro tbl i op h; simp at h
+  | cons o ops ih =>
+    intro tbl i op h
+    cases i with
+    | zero => simp at h; subst h; simp [runHist, tableAfter]
+    | succ i =>
+      simp only [List.getElem?_cons_succ] at h
+      simpa [runHist, tableAfter] using ih (histStep tbl o) i op h
+
+def HOp.isReg : HOp → Bool
+  | .reg .. => true
+  | _ => false
+
+/-- lookups and dispatches never change the table: the state after a history is the state
+after its registrations alone -/
+theorem C14_history_state (ops : List HOp) : ∀ tbl : Table,
+    tableAfter tbl ops = tableAfter tbl (ops.filter HOp.isReg) := by
+  induction ops with
+  | nil => intro tbl; rfl
+  | cons o ops ih =>
+    intro tbl
+    cases o with
+    | reg p nl => simp [tableAfter, HOp.isReg, List.filter] at ih ⊢; exact ih _
+    | look k typ n => simp [tableAfter, HOp.isReg, List.filter, histStep] at ih ⊢; exact ih _
+    | disp n => simp [tableAfter, HOp.isReg, List.filter, histStep] at ih ⊢; exact ih _
+
+/-- a pattern registered later is seen by the very next lookup: registering the exact name
+after the name was already looked up (and resolved to something less specific) changes the
+answer to the exact pattern -/
+theorem C14_history_later_registration (ns : String) (tbl : Table) (k : Kind) (hk : k ≠ .top)
+    (typ : String) (n : Name) (hnew : (⟨k, typ, n⟩ : Pattern) ∉ tbl) :
+    runHist ns tbl [.look k typ n, .reg ⟨k, typ, n⟩ false, .look k typ n]
+      = [histRes ns tbl (.look k typ n), .regOk, .found ⟨k, typ, n⟩] := by
+  have hr := (C14_register_accept tbl ⟨k, typ, n⟩ hk hnew)
+  cases k with
+  | top => exact absurd rfl hk
+  | iq => have h2 := hr.2; simp only at h2; simp [runHist, histRes, histStep, hr.1, h2]
+  | msg => have h2 := hr.2; simp only at h2; simp [runHist, histRes, histStep, hr.1, h2]
+  | pres => have h2 := hr.2; simp only at h2; simp [runHist, histRes, histStep, hr.1, h2]
+
 example : register [] ⟨.iq, "get", ⟨"urn:a", "x"⟩⟩ false = some [⟨.iq, "get", ⟨"urn:a", "x"⟩⟩] := by decide
 
 end XmppModel.Props.C14
